@@ -9,7 +9,8 @@ sys.path.insert(0, os.path.dirname(os.path.abspath(__file__)))
 import simlib
 
 OCTOSQL = os.environ.get("VERIF_OCTOSQL", "/verif/.build/octosql")
-SHAPES = ["none", "where", "distinct", "order_by", "group_by", "join", "in_subquery", "scalar_subquery", "limit_small", "order_by_limit", "count_star"]
+SHAPES = ["none", "where", "distinct", "order_by", "group_by", "join", "in_subquery", "scalar_subquery", "limit_small", "order_by_limit", "count_star",
+          "expr_over_limit", "watermark_group_by"]
 MODES = ["json", "csv", "batch_table", "stream_native"]
 
 
@@ -22,7 +23,7 @@ def write_table(path, kind, rows, bad=-1, fault="", long_len=0):
         if i == bad and fault == "long":
             s = "L" * long_len
         if kind == "json":
-            line = '{"id":%d,"g":%d,"s":"%s"}' % (i, g, s)
+            line = '{"id":%d,"g":%d,"s":"%s","t":"2021-01-01T00:%02d:%02dZ"}' % (i, g, s, i // 60, i % 60)
             if i == bad and fault == "malformed":
                 line = line[:-1] + " oops"
         elif kind == "csv":
@@ -43,6 +44,9 @@ def run_once(r):
     kind = ["json", "csv", "lines"][hdr.weighted(4, 3, 2)]
     shape = hdr.pick(SHAPES)
     mode = hdr.pick(MODES)
+    if shape == "watermark_group_by" and kind != "json":
+        shape = "group_by"  # the time column is an RFC 3339 string in a JSON file
+    slack = hdr.draw(4)
     if shape == "scalar_subquery" and mode == "csv":
         mode = "json"  # the csv formatter cannot print a list value at all (an input/formatter matter, C25/C07)
     n_main = hdr.pick([3, 8, 40, 130])
@@ -59,6 +63,11 @@ def run_once(r):
     max_line = hdr.pick([64, 100, 200])
     rows = n_sub if on_sub else n_main
     bad = pos % rows
+    if shape == "watermark_group_by" and pos % 2 == 0:
+        bad = max(0, rows - 2 - (pos // 2) % 4)  # near the end: the end-of-stream release covers the last few event times
+    if shape == "join" and on_sub and kind == "lines":
+        # unoptimised, the filter sits above the join: the failing row must have a join partner to be evaluated
+        bad = pos % min(n_main, n_sub)
     if two and not on_sub:
         bad = pos % min(n_main, n_sub) if kind == "lines" else bad - bad % 3
     lit = (lambda i: "%d.0" % i) if kind == "json" else (lambda i: str(i))
@@ -80,6 +89,15 @@ def run_once(r):
         mid, mg, ms = cols["m"]
         xid, xg, xs = cols["x"]
         M, X = mfile + " m", xfile + " x"
+        if shape == "expr_over_limit":
+            sel = mw.replace("m.", "x.") + " AS p" if mw else mid.replace("m.", "x.")
+            return "SELECT %s FROM (SELECT * FROM %s LIMIT %d) x" % (sel, M, bad + 1 + slack)
+        if shape == "watermark_group_by":
+            only = lambda col: "(%s < %s OR %s > %s OR panic('boom') = 'q')" % (col, lit(bad), col, lit(bad))
+            w = "WITH w AS (SELECT * FROM max_diff_watermark(source=>TABLE(%s), max_diff=>INTERVAL 5 SECONDS, time_field=>DESCRIPTOR(t)) c) " % mfile
+            if slack % 2 == 0:
+                return w + "SELECT t, COUNT(%s) AS cnt FROM w GROUP BY t TRIGGER ON WATERMARK" % (only("id") if with_panic else "id")
+            return w + "SELECT g.t, COUNT(%s) AS c2 FROM (SELECT t, MAX(id) AS mx FROM w GROUP BY t TRIGGER ON WATERMARK) g GROUP BY g.t TRIGGER ON WATERMARK" % (only("g.mx") if with_panic else "g.mx")
         return {
             "none": "SELECT %s, %s FROM %s%s" % (mid, ms, M, W(mw)),
             "where": "SELECT %s FROM %s%s" % (mid, M, W(AND(mw, mg + " >= " + lit(0)))),
@@ -155,8 +173,9 @@ def run_once(r):
         if not err.strip():
             r.violate("C06", "no_message", attrs, "non-zero exit %d without an error message (%s)" % (rc, sql))
         return
-    consumes_all = shape != "limit_small"
-    if consumes_all and not (fault == "read_error" and two and False):
+    consumes_all = shape not in ("limit_small", "expr_over_limit")
+    needs_bad_row = shape == "expr_over_limit" and fault != "read_error"  # the faulty row is among the first k the inner LIMIT lets through
+    if (consumes_all or needs_bad_row) and not (fault == "read_error" and two and False):
         r.violate("C06", "swallowed", attrs, "the failure was swallowed: exit 0 with %d output lines (fault-free twin: %d lines); %s -o %s" % (out.count(b"\n"), out0.count(b"\n"), sql, mode))
         return
     if fault == "panic_expr" and bad < 2:
